@@ -80,6 +80,11 @@ pub impl Vec<SpeedLimitPoint> {
                 idx_end -= 1;
             }
 
+            // Speed in force at the end of the new limit and whether a point already sits there,
+            // read before the start point is inserted (which would shift the indices)
+            let speed_end_old = self[idx_end].speed_limit;
+            let end_is_new = self[idx_end].offset < speed_limit.offset_end;
+
             // If the speed starts at an offset not already in speeds
             if speed_limit.offset_start < self[idx_start].offset {
                 let speed_old = self[idx_start - 1].speed_limit;
@@ -100,8 +105,8 @@ pub impl Vec<SpeedLimitPoint> {
             }
 
             // If the old speed does not end at offset end
-            if self[idx_end].offset < speed_limit.offset_end {
-                let speed_old = self[idx_end].speed_limit;
+            if end_is_new {
+                let speed_old = speed_end_old;
 
                 // If the speed is different, insert the old speed at offset end
                 if speed_old != min_speed(speed_old, speed_limit.speed) {
